@@ -171,6 +171,27 @@ def run_cell(cell, seed):
         if bad:
             okc, d = False, 'outputs of the .double() module have dtype %s' % bad[:2]
         out.append(res(HELD, case, 'M-CONVERT', ratio=ratio) if okc else res(VIOLATED, case, 'M-CONVERT', d, ratio=ratio))
+    # history: a module that has already been called in one precision is converted and called again
+    for src_dt, conv, xs_first, xs_after, yref, e_ in ((f64, 'float', xs64, xs32, y32, 8 * e32), (f32, 'double', xs32, xs64, y64, 64 * e32)):
+        case = dict(base, check='convert after use', conversion='.%s()' % conv)
+        try:
+            Au = adapters.Adapter(cell, src_dt)
+        except Exception as e:
+            out.append(res(VIOLATED, case, 'M-CONVERT', 'construction raised %r' % (e,)))
+            continue
+        if not util.call_lib(Au.apply, xs_first)[0]:
+            continue
+        Au.mod = Au.mod.float() if conv == 'float' else Au.mod.double()
+        ok, yc = util.call_lib(Au.apply, xs_after)
+        if not ok:
+            out.append(res(VIOLATED, case, 'M-CONVERT', 'module converted after its first use raised %r' % (yc,)))
+        else:
+            okc, d, ratio, bit = cmp_lists('converted after use', yc, yref, e_ * (G * mx + b))
+            want = f32 if conv == 'float' else f64
+            bad = [str(t.dtype) for t in yc if t.dtype != want]
+            if bad:
+                okc, d = False, 'outputs have dtype %s after .%s()' % (bad[:2], conv)
+            out.append(res(HELD, case, 'M-CONVERT', ratio=ratio) if okc else res(VIOLATED, case, 'M-CONVERT', d, ratio=ratio))
     # strided inputs
     for dt, A, xs, yref in ((f64, A64, xs64, y64), (f32, A32, xs32, y32)):
         eps = util.EPS64 if dt == f64 else e32
